@@ -2216,12 +2216,78 @@ impl World {
         if inject {
             self.parties[p].faults.lock().unwrap().fail_what = Some("kp.delete");
         }
-        let res = crate::oracles::lib_call(self, p, Some(g), "write_to_storage", |w| {
-            let mut group = w.parties[p].mems[g].group.take().unwrap();
-            let res = guarded(&prop, "write_to_storage", || write_group(&mut group, oob));
-            w.parties[p].mems[g].group = Some(group);
-            res
-        });
+        // S-SQL-INNER: a statement of the SQLite provider's write fails (full disk, I/O error) after earlier
+        // statements of the same write have run: the write must return an error, the stored history must be exactly
+        // what it was (one transaction), the member must be unchanged, and the repeated write must succeed
+        let mut done_by_fault_attempt = false;
+        if self.cfg.fault("S-SQL-INNER")
+            && matches!(self.parties[p].gstore.backend, crate::seams::Backend::Sql(_))
+            && mix(&[self.seed, self.step_no as u64, 0x5151]) % 3 == 0
+        {
+            let k = (mix(&[self.seed, self.step_no as u64, 0x5152]) % 10) as u32;
+            let gid = self.groups[g].gid.clone();
+            let disk0 = self.parties[p].gstore.view(&gid);
+            let state0 = crate::oracles::h1(self.parties[p].mems[g].group.as_ref().unwrap()).unwrap_or_default();
+            self.parties[p].gstore.sqlctl.arm(k);
+            let mut group = self.parties[p].mems[g].group.take().unwrap();
+            let r = guarded(&prop, "write_to_storage(failing SQL statement)", || write_group(&mut group, oob));
+            self.parties[p].mems[g].group = Some(group);
+            let (_seen, fired) = self.parties[p].gstore.sqlctl.disarm();
+            let r = r?;
+            if fired > 0 {
+                self.stats.fault("S-SQL-INNER");
+                *self.stats.probes.entry(format!("sql-statement-failed:action-{k}")).or_default() += 1;
+                self.stats.check("failed-sqlite-write-leaves-no-trace");
+                if r.is_ok() {
+                    return Err(Violation::new(
+                        &prop,
+                        "provider-error-surfaces",
+                        "error-swallowed:write_to_storage:sql-statement".into(),
+                        format!("P{p}: write_to_storage returned Ok although a statement of the SQLite write failed (row-changing action {k})"),
+                    ));
+                }
+                let disk1 = self.parties[p].gstore.view(&gid);
+                if disk1 != disk0 {
+                    return Err(Violation::new(
+                        &prop,
+                        "disk-unchanged-after-error",
+                        "partial-sqlite-write".into(),
+                        format!(
+                            "P{p}: write_to_storage failed inside the SQLite provider (row-changing action {k} denied) but the stored history changed: snapshot equal = {}, epochs {:?} -> {:?}",
+                            disk0.state == disk1.state,
+                            disk0.epochs.keys().collect::<Vec<_>>(),
+                            disk1.epochs.keys().collect::<Vec<_>>()
+                        ),
+                    ));
+                }
+                let state1 = crate::oracles::h1(self.parties[p].mems[g].group.as_ref().unwrap()).unwrap_or_default();
+                let d = crate::oracles::diff_states(&state0, &state1, None);
+                if !d.is_empty() {
+                    return Err(Violation::new(
+                        &prop,
+                        "state-unchanged-after-error",
+                        format!("changed:{}:failed-sqlite-write", d.join("+")),
+                        format!("P{p}: a write_to_storage that failed inside the SQLite provider changed the member: {:?}", d),
+                    ));
+                }
+                self.ev(format!("write P{p} g{g}: SQL statement (action {k}) failed, nothing stored, retrying"));
+            } else if r.is_ok() {
+                // the write has fewer row-changing actions than k: it was an ordinary successful write (a twin, if
+                // any, did not take part in it)
+                self.ext.twins.remove(&(p, g));
+                done_by_fault_attempt = true;
+            }
+        }
+        let res = if done_by_fault_attempt {
+            Ok(Ok(()))
+        } else {
+            crate::oracles::lib_call(self, p, Some(g), "write_to_storage", |w| {
+                let mut group = w.parties[p].mems[g].group.take().unwrap();
+                let res = guarded(&prop, "write_to_storage", || write_group(&mut group, oob));
+                w.parties[p].mems[g].group = Some(group);
+                res
+            })
+        };
         let mut res = res?;
         if inject {
             let fired = self.parties[p].faults.lock().unwrap().fail_what.take().is_none();
